@@ -125,6 +125,65 @@ def State.oSlot (s : State) (j : Nat) : Option Cell :=
   | some i => s.oRows.flatten[i]?
   | none => none
 
+
+/-! ### the sampling path: `Sampler`, `ReplayBuffer.sample`, `PrioritizedReplayBuffer.sample`,
+    `MultiStepReplayBuffer.sample_from_indices` and the sampling block of `train_off_policy` -/
+
+/-- the class of the buffer a `Sampler` is built around (`none` = no memory given) -/
+inductive MemClass where
+  | none | replay | multiStep | prioritized | multiAgent | other
+deriving DecidableEq, Repr
+
+/-- the sampling method a `Sampler` installs -/
+inductive SMode where
+  | standard | per | nStep | distributed
+deriving DecidableEq, Repr
+
+/-- `Sampler.__init__` as a decision on its flags: refused (`none`) without a memory unless dataset and
+    dataloader are both given; distributed when a dataset and a torch `DataLoader` are given; otherwise
+    by the class of the memory: prioritised ↦ `sample_per`, multi-step ↦ `sample_n_step`, else standard -/
+def samplerMode (c : MemClass) (dataset loaderGiven loaderIsTorch : Bool) : Option SMode :=
+  if c = .none ∧ ¬ (dataset = true ∧ loaderGiven = true) then none
+  else if loaderGiven = true ∧ dataset = true ∧ loaderIsTorch = true then some .distributed
+  else match c with
+    | .prioritized => some .per
+    | .multiStep => some .nStep
+    | _ => some .standard
+
+/-- an index tensor: the indices and the number of extra singleton axes (PER hands out a (B,1) column) -/
+structure IdxCol where
+  vals  : List Nat
+  extra : Nat
+deriving Repr, DecidableEq
+
+/-- what one `agent.learn(experiences, n_experiences)` call receives from the sampling block -/
+structure Paired (α : Type) where
+  one      : List α             -- rows of the 1-step batch
+  oneExtra : Nat                -- extra axes of the 1-step batch (0: one record per row)
+  oneIdx   : Option IdxCol      -- its `idxs` entry
+  nst      : Option (List α)    -- rows of the n-step batch (`none`: no n-step memory)
+  nstExtra : Nat                -- extra axes of the n-step batch
+deriving Repr, DecidableEq
+
+/-- both storages read with the same index list -/
+def pairedSample {α : Type} (idxs : List Nat) (oneStep nStep : Nat → α) : List α × List α :=
+  (idxs.map oneStep, idxs.map nStep)
+
+/-- the sampling block of `train_off_policy` for the indices `drawn` by the 1-step buffer
+    (`randperm(size)[:B]` resp. the proportional draw of PER).  PER returns its indices as a (B,1) column,
+    the uniform buffer returns them (flat) only when an n-step memory is present; the n-step sampler reads
+    its storage with these indices.  `flat = true`: `Sampler.sample_n_step` flattens the column first (the code
+    as repaired); `flat = false`: the column is used as it is and the n-step batch inherits its extra axis. -/
+def sampleBlock {α : Type} (flat per : Bool) (oneStep : Nat → α) (nStep : Option (Nat → α)) (drawn : List Nat) :
+    Paired α :=
+  { one := drawn.map oneStep, oneExtra := 0,
+    oneIdx := if per then some ⟨drawn, 1⟩ else if nStep.isSome then some ⟨drawn, 0⟩ else none,
+    nst := nStep.map (fun s => (pairedSample drawn oneStep s).2),
+    nstExtra := if flat then 0 else if per ∧ nStep.isSome then 1 else 0 }
+
+/-- the arguments of `memory.update_priorities` after a learn step that returned `ret`: only with PER -/
+def updatesOf {ρ : Type} (per : Bool) (ret : ρ) : List ρ := if per then [ret] else []
+
 end NStep
 
 /-! ### line protocol -/
@@ -148,6 +207,15 @@ def showSlot : Option Cell → String
 def parseBool? : String → Option Bool
   | "0" => some false
   | "1" => some true
+  | _ => none
+
+def parseClass? : String → Option MemClass
+  | "none" => some .none
+  | "replay" => some .replay
+  | "multistep" => some .multiStep
+  | "prioritized" => some .prioritized
+  | "multiagent" => some .multiAgent
+  | "other" => some .other
   | _ => none
 
 def parseCell? : List String → Option Cell
@@ -189,6 +257,32 @@ def step (s : IOState) : List String → IOState × String
     | some st =>
       (s, " ".intercalate ((List.range st.nbuf.size).map (fun j => showSlot (st.nSlot j))) ++ " | " ++
           " ".intercalate ((List.range st.obuf.size).map (fun j => showSlot (st.oSlot j))))
+  | ["mode", c, ds, lg, lt] =>
+    match parseClass? c, parseBool? ds, parseBool? lg, parseBool? lt with
+    | some c, some ds, some lg, some lt =>
+      (s, match samplerMode c ds lg lt with
+          | none => "reject"
+          | some .standard => "standard"
+          | some .per => "per"
+          | some .nStep => "nstep"
+          | some .distributed => "distributed")
+    | _, _, _, _ => (s, "bad-op")
+  | "sample" :: per :: hasN :: idxs =>
+    match s.st, parseBool? per, parseBool? hasN, allSome (idxs.map parseNat?) with
+    | some st, some per, some hasN, some idxs =>
+      -- an index outside the filled part of a storage is an IndexError / garbage in the real code
+      if idxs.any (fun j => decide (st.obuf.size ≤ j)) || (hasN && idxs.any (fun j => decide (st.nbuf.size ≤ j))) then (s, "reject")
+      else
+        let p := sampleBlock true per st.oSlot (if hasN then some st.nSlot else none) idxs
+        (s, " ".intercalate (p.one.map showSlot) ++ " | " ++
+            (match p.nst with
+             | none => "-"
+             | some rows => " ".intercalate (rows.map showSlot)) ++ " | " ++
+            toString p.oneExtra ++ " " ++ toString p.nstExtra ++ " " ++
+            (match p.oneIdx with
+             | none => "-"
+             | some i => toString i.extra ++ ":" ++ ",".intercalate (i.vals.map toString)))
+    | _, _, _, _ => (s, "bad-op")
   | _ => (s, "bad-op")
 
 end NStep
